@@ -38,6 +38,3 @@ Definition free_edges (E : list (Z * Z)) : list Z := nonforest (eidx E).
 (* executable criterion: the charges of the component of every vertex add up to even *)
 Definition tseitin_components_even (n : Z) (E : list (Z * Z)) (ch : option (list bool)) : bool :=
   forallb (fun x => negb (charge_parity ch (fun v => connected E v x) n)) (rng n).
-
-(* the values of an assignment on a list of identifiers *)
-Definition restrict (a : Z -> bool) (ids : list Z) : list bool := map a ids.
